@@ -14,7 +14,9 @@ EXHAUSTIVE = True
 RULE = ("bounded-exhaustive: all part names over an 11-segment alphabet up to depth 3 (quick) / 4 "
         "(thorough) plus '/', every ordered pair (P,Q) of them (thorough depth 4: full product); "
         "all references of <=4 segments over alphabet+{'.','..'} (relative and root-absolute) against "
-        "every base directory of depth<=2; Hypothesis-generated names over a wider segment grammar. "
+        "every base directory of depth<=2; Hypothesis-generated names over a wider segment grammar; "
+        "relationship collections from a generated source to 1-4 generated targets, serialised three times with "
+        "targets renamed in between, each written Target resolved (RFC 3986) against the source directory. "
         "Non-trivial: P and Q lie in different directories, in sibling-prefix directories "
         "(/a/slides vs /a/slidesX), or one is root-level; dot-segment references count when they "
         "contain '.' or '..' or are root-absolute. All enumerated cases are distinct by construction.")
@@ -189,6 +191,57 @@ def check_resolve(case):
                         % (base, ref, got, exp))
 
 
+def check_rels(case):
+    """case = (source part name, [[target name, later name or None, still later name or None] ...]).
+
+    The Target written for a relationship resolves (RFC 3986, against the source's directory) to the name its
+    target part has *when it is written*: parts are renamed between serialisations (the slide collection does
+    that), and each serialisation is read with the reference resolver of this file, not with PackURI."""
+    from xml.etree import ElementTree as ET
+
+    from pptx.opc.constants import RELATIONSHIP_TYPE as RT
+    from pptx.opc.package import Part, _Relationships
+    from pptx.opc.packuri import PackURI
+
+    pn, targets = case
+    base = PackURI(pn).baseURI
+    try:
+        rels = _Relationships(base)
+        parts = [Part(PackURI(t[0]), "application/xml", None, b"<a/>") for t in targets]
+        rids = [rels.get_or_add(RT.SLIDE if i % 2 else RT.IMAGE, part) for i, part in enumerate(parts)]
+    except Exception as e:
+        raise Violation("C19:rels-raises", "relationships from %r to %r raised %r" % (pn, [t[0] for t in targets], e))
+    for step in range(3):
+        if step:
+            for part, t in zip(parts, targets):
+                if t[step] is not None:
+                    part.partname = PackURI(t[step])
+        names = {}
+        for part, t, rid in zip(parts, targets, rids):
+            names[rid] = [x for x in t[: step + 1] if x is not None][-1]
+        try:
+            xml = rels.xml
+            live = {rid: (rels[rid].target_ref, str(rels[rid].target_partname)) for rid in rids}
+        except Exception as e:
+            raise Violation("C19:rels-raises", "serialising relationships of %r raised %r" % (pn, e))
+        root = ET.fromstring(xml)
+        written = {el.get("Id"): el.get("Target") for el in root}
+        for rid in set(rids):
+            want = names[rid]
+            ref = written.get(rid)
+            if ref is None or ref.split("/")[-1] in (".", ".."):
+                continue
+            got = rfc3986_resolve(ref_basedir(pn), ref)
+            if got != want:
+                raise Violation("C19:rels-target-stale" if step else "C19:rels-target",
+                                "source %r: relationship %s to the part now named %r is written with Target=%r, "
+                                "which resolves to %r (serialisation #%d, names so far %r)"
+                                % (pn, rid, want, ref, got, step + 1, targets))
+            if live[rid][1] != want or rfc3986_resolve(ref_basedir(pn), live[rid][0]) != want:
+                raise Violation("C19:rels-target-ref", "source %r: target_ref %r / target_partname %r for the part "
+                                "named %r" % (pn, live[rid][0], live[rid][1], want))
+
+
 def check_reject(name):
     from pptx.opc.packuri import PackURI
 
@@ -326,6 +379,24 @@ def run_job(job, seed, tier, rec, known):
                         known=known)
         for x in f2:
             x["case"] = ["resolve"] + list(x["case"])
+        tgt = st.tuples(name, st.one_of(st.none(), name), st.one_of(st.none(), name)).map(list)
+        # distinct current names at every step (a package never holds two parts of one name)
+        def distinct(ts):
+            cur = [t[0] for t in ts]
+            for step in (0, 1, 2):
+                cur = [t[step] if t[step] is not None else c for t, c in zip(ts, cur)]
+                if len(set(cur)) != len(cur):
+                    return False
+            return True
+
+        def fn4(case):
+            check_rels(case)
+            rec.note(["rels", case[0], case[1]], any(t[1] is not None or t[2] is not None for t in case[1]))
+
+        f4 = hyp_search(fn4, st.tuples(name, st.lists(tgt, min_size=1, max_size=4).filter(distinct)),
+                        seed=seed + 11, max_examples=job["n"], rec=rec, known=known)
+        for x in f4:
+            x["case"] = ["rels"] + list(x["case"])
         nonslash = st.text(min_size=0, max_size=8).filter(lambda s: not s.startswith("/"))
 
         def fn3(s):
@@ -335,7 +406,7 @@ def run_job(job, seed, tier, rec, known):
         f3 = hyp_search(fn3, nonslash, seed=seed + 9, max_examples=300, rec=rec, known=known)
         for x in f3:
             x["case"] = ["reject", x["case"]]
-        return f + f2 + f3
+        return f + f2 + f3 + f4
     raise ValueError(k)
 
 
@@ -350,4 +421,6 @@ def replay(case):
         return collect(check_resolve, (case[1], case[2]))
     if kind == "reject":
         return collect(check_reject, case[1])
+    if kind == "rels":
+        return collect(check_rels, (case[1], case[2]))
     raise ValueError(kind)
